@@ -32,8 +32,8 @@ from vgi_rpc.http.server import _state_token as st
 
 PROPERTY = "C14"
 LEVEL = "exploration"
-QUICK_RUNS = 1000
-THOROUGH_RUNS = 60_000
+QUICK_RUNS = 640
+THOROUGH_RUNS = 40_000
 QUICK_BUDGET_S = 100
 THOROUGH_BUDGET_S = 1500
 RULE = ("one run = (workers 2-3, per-worker cache capacity 0-3 or default, ttl 100/30/3600) x a tape-drawn sequence of 6-17 actions "
